@@ -4,6 +4,7 @@ Property theorems only; the model is `Model/Database.lean`, the regenerated tabl
 -/
 import PrimaiteModel.Model.Database
 import PrimaiteModel.Gen.Database
+import PrimaiteModel.Lemmas.DatabaseReach
 namespace Primaite.Database
 
 /-! ## 1. The connect ladder (`_process_connect` behind `receive`) -/
@@ -238,6 +239,17 @@ theorem C17_restore_result (s : Server) (b : Backup) (pq pr : Bool) (hok : (rest
     · by_cases hq : s.ftpConn = true <;> simp [hc, hp, hq] at hok
   · simp [hc] at hok
 
+/-- A restore that fails — whatever the reason: service not running, request or answer path closed, backup host off,
+FTP server stopped, nothing stored — leaves the server as it was, up to the FTP client's connection bookkeeping; in
+particular the live database file is kept.  (Finding F-33: before the repair the live file was deleted when the backup
+copy did not arrive over a closed answer path.) -/
+theorem C17_failed_restore_changes_nothing (s : Server) (b : Backup) (pq pr : Bool)
+    (h : (restoreBackup s b pq pr).2 = false) :
+    (restoreBackup s b pq pr).1 = { s with ftpConn := (restoreBackup s b pq pr).1.ftpConn } := by
+  revert h
+  cases pr <;> unfold restoreBackup <;> dsimp only <;> (repeat' split) <;> intro h <;>
+    first | rfl | (cases s; simp_all) | simp_all
+
 /-- End to end: back up while GOOD, damage the data in any way the model knows, restore: GOOD again. -/
 theorem C17_restore_good (s : Server) (b : Backup) (p pq : Bool) (s' : Server)
     (hgood : s.file = some .good) (hbk : (backupDatabase s b p).2.2 = true)
@@ -455,5 +467,554 @@ theorem C17_request_validated (s : Server) (r : SvcReq) :
     · exact absurd hon h
     · cases r <;> simp [modelValidator] at hv <;> subst hv <;> simp [hn, hne]
   · simp [hn]
+
+/-! ## 8. All operation sequences
+
+`Lemmas/DatabaseReach.lean` proves `run_reach`: along any operation sequence the server changes only through events that
+the operations permit.  The theorems below are proved for every event (hence every event sequence) and lifted to
+`run st ops` for every state `st` and every list `ops`. -/
+
+/-- What a non-`recv` event leaves alone: the connection table and the id counter. -/
+theorem restore_frame (s : Server) (b : Backup) (pq pr : Bool) :
+    (restoreBackup s b pq pr).1.conns = s.conns ∧ (restoreBackup s b pq pr).1.nextId = s.nextId ∧
+    (restoreBackup s b pq pr).1.password = s.password ∧ (restoreBackup s b pq pr).1.node = s.node ∧
+    (restoreBackup s b pq pr).1.op = s.op := by
+  cases pr <;> unfold restoreBackup <;> dsimp only <;> (repeat' split) <;> first | simp | simp_all
+
+theorem backup_frame (s : Server) (b : Backup) (pq : Bool) :
+    (backupDatabase s b pq).1.conns = s.conns ∧ (backupDatabase s b pq).1.nextId = s.nextId ∧
+    (backupDatabase s b pq).1.file = s.file ∧ (backupDatabase s b pq).1.password = s.password := by
+  unfold backupDatabase
+  split
+  · simp
+  · split
+    · simp
+    · split
+      · simp
+      · dsimp only
+        split
+        · simp
+        · split
+          · simp
+          · split <;> simp
+
+theorem request_frame (s : Server) (r : SvcReq) :
+    (s.request r).1.conns = s.conns ∧ (s.request r).1.nextId = s.nextId ∧ (s.request r).1.file = s.file ∧
+    (s.request r).1.password = s.password := by
+  unfold Server.request
+  split
+  · simp
+  · cases r <;> dsimp only <;> (repeat' split) <;> simp
+
+theorem tickPower_frame (s : Server) :
+    s.tickPower.conns = s.conns ∧ s.tickPower.nextId = s.nextId ∧ s.tickPower.file = s.file ∧
+    s.tickPower.password = s.password := by
+  unfold Server.tickPower
+  dsimp only
+  split <;> split <;> simp
+
+theorem tickRestart_frame (s : Server) :
+    s.tickRestart.conns = s.conns ∧ s.tickRestart.nextId = s.nextId ∧ s.tickRestart.file = s.file ∧
+    s.tickRestart.password = s.password := by
+  unfold Server.tickRestart
+  split
+  · split <;> simp
+  · simp
+
+theorem tickFix_frame (s : Server) (b : Backup) (pq pr : Bool) :
+    (s.tickFix b pq pr).conns = s.conns ∧ (s.tickFix b pq pr).nextId = s.nextId ∧
+    (s.tickFix b pq pr).password = s.password := by
+  unfold Server.tickFix
+  split
+  · split
+    · have h := restore_frame { s with health := .good, fixCd := 0 } b pq pr
+      exact ⟨h.1, h.2.1, h.2.2.1⟩
+    · simp
+  · simp
+
+theorem serverTick_frame (s : Server) (b : Backup) (t : Nat) (pq pr : Bool) :
+    (serverTick s b t pq pr).1.conns = s.conns ∧ (serverTick s b t pq pr).1.nextId = s.nextId ∧
+    (serverTick s b t pq pr).1.password = s.password := by
+  unfold serverTick
+  dsimp only
+  have hp := tickPower_frame s
+  split
+  · exact ⟨hp.1, hp.2.1, hp.2.2.2⟩
+  · split
+    · have hb := backup_frame s.tickPower b pq
+      have hf := tickFix_frame (backupDatabase s.tickPower b pq).1 (backupDatabase s.tickPower b pq).2.1 pq pr
+      have hr := tickRestart_frame ((backupDatabase s.tickPower b pq).1.tickFix (backupDatabase s.tickPower b pq).2.1 pq pr)
+      dsimp only
+      refine ⟨?_, ?_, ?_⟩
+      · rw [hr.1, hf.1, hb.1, hp.1]
+      · rw [hr.2.1, hf.2.1, hb.2.1, hp.2.1]
+      · rw [hr.2.2.2, hf.2.2, hb.2.2.2, hp.2.2.2]
+    · have hf := tickFix_frame s.tickPower b pq pr
+      have hr := tickRestart_frame (s.tickPower.tickFix b pq pr)
+      dsimp only
+      refine ⟨?_, ?_, ?_⟩
+      · rw [hr.1, hf.1, hp.1]
+      · rw [hr.2.1, hf.2.1, hp.2.1]
+      · rw [hr.2.2.2, hf.2.2, hp.2.2.2]
+
+theorem power_frame (s : Server) :
+    s.powerOn.conns = s.conns ∧ s.powerOn.nextId = s.nextId ∧ s.powerOn.file = s.file ∧
+    s.powerOff.conns = s.conns ∧ s.powerOff.nextId = s.nextId ∧ s.powerOff.file = s.file := by
+  unfold Server.powerOn Server.powerOff
+  dsimp only
+  split <;> simp
+
+theorem file_frame (s : Server) :
+    s.fileDelete.1.conns = s.conns ∧ s.fileDelete.1.nextId = s.nextId ∧
+    s.fileCorrupt.1.conns = s.conns ∧ s.fileCorrupt.1.nextId = s.nextId ∧
+    s.fileRepair.1.conns = s.conns ∧ s.fileRepair.1.nextId = s.nextId := by
+  unfold Server.fileDelete Server.fileCorrupt Server.fileRepair
+  cases s.file <;> simp
+
+/-- How one event changes the connection table: only a `recv`. -/
+theorem apply_conns_nonrecv (s : Server) (e : SrvEv) (h : ∀ src p, e ≠ .recv src p) :
+    (e.apply s).conns = s.conns ∧ (e.apply s).nextId = s.nextId := by
+  cases e with
+  | recv src p => exact absurd rfl (h src p)
+  | req r => exact ⟨(request_frame s r).1, (request_frame s r).2.1⟩
+  | setPw pw => exact ⟨rfl, rfl⟩
+  | backup b pq => exact ⟨(backup_frame s b pq).1, (backup_frame s b pq).2.1⟩
+  | restore b pq pr => exact ⟨(restore_frame s b pq pr).1, (restore_frame s b pq pr).2.1⟩
+  | fileDelete => exact ⟨(file_frame s).1, (file_frame s).2.1⟩
+  | fileCorrupt => exact ⟨(file_frame s).2.2.1, (file_frame s).2.2.2.1⟩
+  | fileRepair => exact ⟨(file_frame s).2.2.2.2.1, (file_frame s).2.2.2.2.2⟩
+  | powerOn => exact ⟨(power_frame s).1, (power_frame s).2.1⟩
+  | powerOff => exact ⟨(power_frame s).2.2.2.1, (power_frame s).2.2.2.2.1⟩
+  | tick b t pq pr => exact ⟨(serverTick_frame s b t pq pr).1, (serverTick_frame s b t pq pr).2.1⟩
+
+/-- `recv` of a query never touches the table; of a disconnect only shrinks it; of a connect appends at most the
+fresh id. -/
+theorem recv_conns (s : Server) (src : Nat) (p : Payload) :
+    s.nextId ≤ ((SrvEv.recv src p).apply s).nextId ∧
+    ∀ c ∈ ((SrvEv.recv src p).apply s).conns, c ∈ s.conns ∨
+      (c = { id := s.nextId, owner := src } ∧ s.nextId < ((SrvEv.recv src p).apply s).nextId ∧
+       ∃ pw, p = .connect pw ∧ s.password = pw ∧ s.canAct = true ∧ s.conns.length < s.maxSessions) := by
+  cases p with
+  | connect pw =>
+    simp only [SrvEv.apply, Server.receive]
+    by_cases hc : s.canAct = true
+    · simp only [hc, Bool.not_true, Bool.false_eq_true, if_false]
+      by_cases h200 : (processConnect s src pw).2.1 = 200
+      · have hk := (C17_connect_ok_iff s src pw).mp h200
+        have hf := (C17_connect_ok_adds_fresh s src pw).1 h200
+        have hn : (processConnect s src pw).1.nextId = s.nextId + 1 := by
+          unfold processConnect
+          have h4 : ¬ s.maxSessions ≤ s.conns.length := by omega
+          simp [hk.1, hk.2.1, hk.2.2.1, h4]
+        refine ⟨by omega, ?_⟩
+        intro c hcm
+        rw [hf.1] at hcm
+        rcases List.mem_append.mp hcm with h | h
+        · exact Or.inl h
+        · right
+          refine ⟨by simpa using h, by omega, pw, rfl, hk.2.2.1, trivial, hk.2.2.2⟩
+      · have hf := (C17_connect_ok_adds_fresh s src pw).2 h200
+        refine ⟨?_, ?_⟩
+        · unfold processConnect; (repeat' split) <;> simp
+        · intro c hcm; rw [hf.1] at hcm; exact Or.inl hcm
+    · simp [hc]
+  | sql cid q =>
+    simp only [SrvEv.apply, Server.receive]
+    have key : ∀ q, (processSql s q).1.conns = s.conns ∧ (processSql s q).1.nextId = s.nextId := by
+      intro q; unfold processSql; cases s.file with
+      | none => simp
+      | some fh => dsimp only; split
+                   · simp
+                   · cases q <;> simp
+    split
+    · simp
+    · split
+      · split
+        · rw [(key q).1, (key q).2]; exact ⟨Nat.le_refl _, fun c h => Or.inl h⟩
+        · exact ⟨Nat.le_refl _, fun c h => Or.inl h⟩
+      · exact ⟨Nat.le_refl _, fun c h => Or.inl h⟩
+  | disconnect cid =>
+    simp only [SrvEv.apply, Server.receive]
+    split
+    · exact ⟨Nat.le_refl _, fun c h => Or.inl h⟩
+    · split
+      · split
+        · exact ⟨Nat.le_refl _, fun c h => Or.inl (List.mem_filter.mp h).1⟩
+        · exact ⟨Nat.le_refl _, fun c h => Or.inl h⟩
+      · exact ⟨Nat.le_refl _, fun c h => Or.inl h⟩
+
+/-- **Every connection in the table was admitted by a correctly authenticated connect.**  For every event whatsoever:
+a connection present afterwards was present before, or it is the fresh id, issued to the sender of a connect request
+that carried the server's current password, while the service could act (RUNNING on an ON node) below its session limit. -/
+theorem C17_table_grows_only_by_authorised_connect (s : Server) (e : SrvEv) :
+    ∀ c ∈ (e.apply s).conns, c ∈ s.conns ∨
+      (c.id = s.nextId ∧ ∃ pw, e = .recv c.owner (.connect pw) ∧ s.password = pw ∧ s.node.st = .on ∧ s.op = .running ∧
+        s.conns.length < s.maxSessions) := by
+  intro c hc
+  by_cases hr : ∃ src p, e = .recv src p
+  · obtain ⟨src, p, rfl⟩ := hr
+    rcases (recv_conns s src p).2 c hc with h | ⟨hceq, _, pw, hp, hpw, hca, hlen⟩
+    · exact Or.inl h
+    · right
+      subst hceq hp
+      have := (C17_canAct_iff s).mp hca
+      exact ⟨rfl, pw, rfl, hpw, this.1, this.2, hlen⟩
+  · have := apply_conns_nonrecv s e (fun src p h => hr ⟨src, p, h⟩)
+    rw [this.1] at hc; exact Or.inl hc
+
+/-- Issued ids are below the counter, the counter never decreases, and ids in the table are pairwise distinct. -/
+def Server.WF (s : Server) : Prop := (∀ c ∈ s.conns, c.id < s.nextId) ∧ (s.conns.map (·.id)).Nodup
+
+theorem apply_nextId_mono (s : Server) (e : SrvEv) : s.nextId ≤ (e.apply s).nextId := by
+  by_cases hr : ∃ src p, e = .recv src p
+  · obtain ⟨src, p, rfl⟩ := hr; exact (recv_conns s src p).1
+  · rw [(apply_conns_nonrecv s e (fun src p h => hr ⟨src, p, h⟩)).2]; exact Nat.le_refl _
+
+theorem apply_WF (s : Server) (e : SrvEv) (h : s.WF) : (e.apply s).WF := by
+  by_cases hr : ∃ src p, e = .recv src p
+  · obtain ⟨src, p, rfl⟩ := hr
+    have hm := recv_conns s src p
+    refine ⟨?_, ?_⟩
+    · intro c hc
+      rcases hm.2 c hc with h1 | ⟨rfl, hlt, _⟩
+      · exact Nat.lt_of_lt_of_le (h.1 c h1) hm.1
+      · exact hlt
+    · -- distinctness: by cases on the payload
+      cases p with
+      | connect pw =>
+        simp only [SrvEv.apply, Server.receive]
+        by_cases hc : s.canAct = true
+        · simp only [hc, Bool.not_true, Bool.false_eq_true, if_false]
+          by_cases h200 : (processConnect s src pw).2.1 = 200
+          · rw [((C17_connect_ok_adds_fresh s src pw).1 h200).1]
+            simp only [List.map_append, List.map_cons, List.map_nil]
+            refine List.nodup_append.mpr ⟨h.2, by simp, ?_⟩
+            intro a ha b hb
+            simp only [List.mem_singleton] at hb
+            subst hb
+            obtain ⟨c, hc1, rfl⟩ := List.mem_map.mp ha
+            exact Nat.ne_of_lt (h.1 c hc1)
+          · rw [((C17_connect_ok_adds_fresh s src pw).2 h200).1]; exact h.2
+        · simp only [hc]; exact h.2
+      | sql cid q =>
+        have : ((SrvEv.recv src (.sql cid q)).apply s).conns = s.conns := by
+          simp only [SrvEv.apply, Server.receive]
+          have key : (processSql s q).1.conns = s.conns := by
+            unfold processSql; cases s.file with
+            | none => simp
+            | some fh => dsimp only; split
+                         · simp
+                         · cases q <;> simp
+          (repeat' split) <;> first | rfl | exact key
+        rw [this]; exact h.2
+      | disconnect cid =>
+        simp only [SrvEv.apply, Server.receive]
+        (repeat' split) <;> first | exact h.2 | exact (List.Sublist.map _ List.filter_sublist).nodup h.2
+  · have := apply_conns_nonrecv s e (fun src p h => hr ⟨src, p, h⟩)
+    exact ⟨by rw [this.1, this.2]; exact h.1, by rw [this.1]; exact h.2⟩
+
+/-- Well-formedness of the connection table along every operation sequence. -/
+theorem C17_table_wellformed_run (st : State) (ops : List Op) (h : st.srv.WF) : (run st ops).srv.WF :=
+  (run_reach st ops).invariant (I := Server.WF) (fun s e _ hs => apply_WF s e hs) h
+
+/-- **Forged ids.**  In a well-formed state an id that has not been issued (the counter has not reached it) is not in
+the table, so a query carrying it — or carrying no issued id at all — is answered 401 and changes nothing. -/
+theorem C17_forged_refused (s : Server) (h : s.WF) (src : Nat) (q : Sql) (cid : Option Nat)
+    (hf : ∀ id, cid = some id → s.nextId ≤ id) (hc : s.canAct = true) :
+    s.receive src (.sql cid q) = (s, some (401, none)) := by
+  have hn : ¬ ∃ id, cid = some id ∧ s.hasConn id = true := by
+    rintro ⟨id, rfl, hid⟩
+    have : ∃ c ∈ s.conns, c.id = id := by simpa [Server.hasConn, List.any_eq_true] using hid
+    obtain ⟨c, hcm, rfl⟩ := this
+    exact absurd (h.1 c hcm) (Nat.not_lt.mpr (hf _ rfl))
+  have hg := (C17_query_gated s src cid q).2.1
+  exact hg ⟨hc, hn⟩
+
+/-- **Closed ids stay closed.**  Once an issued id is absent from the table (it was closed, or never admitted), no event
+brings it back … -/
+theorem apply_closed_stays (s : Server) (e : SrvEv) (id : Nat) (hlt : id < s.nextId) (hno : s.hasConn id = false) :
+    id < (e.apply s).nextId ∧ (e.apply s).hasConn id = false := by
+  refine ⟨Nat.lt_of_lt_of_le hlt (apply_nextId_mono s e), ?_⟩
+  cases hh : (e.apply s).hasConn id with
+  | false => rfl
+  | true =>
+    exfalso
+    have : ∃ c ∈ (e.apply s).conns, c.id = id := by simpa [Server.hasConn, List.any_eq_true] using hh
+    obtain ⟨c, hcm, rfl⟩ := this
+    rcases C17_table_grows_only_by_authorised_connect s e c hcm with h1 | ⟨h2, _⟩
+    · have : s.hasConn c.id = true := by
+        simp only [Server.hasConn, List.any_eq_true, beq_iff_eq]; exact ⟨c, h1, rfl⟩
+      rw [this] at hno; cases hno
+    · omega
+
+/-- … along every operation sequence: queries on it are answered 401 (when answered at all) for ever. -/
+theorem C17_closed_stays_closed_run (st : State) (ops : List Op) (id : Nat)
+    (hlt : id < st.srv.nextId) (hno : st.srv.hasConn id = false) :
+    (run st ops).srv.hasConn id = false ∧
+    ∀ src q, ((run st ops).srv.receive src (.sql (some id) q)).1 = (run st ops).srv ∧
+      (((run st ops).srv.receive src (.sql (some id) q)).2 = some (401, none) ∨
+       ((run st ops).srv.receive src (.sql (some id) q)).2 = none) := by
+  have hinv := (run_reach st ops).invariant (I := fun s => id < s.nextId ∧ s.hasConn id = false)
+    (fun s e _ hs => apply_closed_stays s e id hs.1 hs.2) ⟨hlt, hno⟩
+  refine ⟨hinv.2, ?_⟩
+  intro src q
+  by_cases hc : (run st ops).srv.canAct = true
+  · have := (C17_query_gated (run st ops).srv src (some id) q).2.1 ⟨hc, by
+      rintro ⟨id', h1, h2⟩; cases h1; rw [hinv.2] at h2; cases h2⟩
+    rw [this]; exact ⟨rfl, Or.inl rfl⟩
+  · have hc' : (run st ops).srv.canAct = false := by simpa using hc
+    have := (C17_query_gated (run st ops).srv src (some id) q).2.2 hc'
+    rw [this]; exact ⟨rfl, Or.inr rfl⟩
+
+/-! ### compromised data stays unreadable until restored -/
+
+/-- The events that can take the file out of COMPROMISED: a restore (on demand, or by a tick that completes a fix),
+an ENCRYPT query, deletion of the file. -/
+def IsEscape : SrvEv → Prop
+  | .restore _ _ _ => True
+  | .tick _ _ _ _ => True
+  | .fileDelete => True
+  | .recv _ (.sql _ .encrypt) => True
+  | _ => False
+
+theorem apply_compromised_persists (s : Server) (e : SrvEv) (hne : ¬ IsEscape e) (h : s.file = some .compromised) :
+    (e.apply s).file = some .compromised := by
+  cases e with
+  | recv src p =>
+    cases p with
+    | connect pw =>
+      simp only [SrvEv.apply, Server.receive]
+      split
+      · exact h
+      · dsimp only; unfold processConnect; (repeat' split) <;> exact h
+    | sql cid q =>
+      simp only [SrvEv.apply, Server.receive]
+      have key : (processSql s q).1.file = some .compromised := by
+        cases q with
+        | encrypt => exact absurd trivial hne
+        | delete => unfold processSql; rw [h]; dsimp only; split <;> simp [h]
+        | select => rw [C17_nondestructive_unchanged s .select (by decide)]; exact h
+        | insert => rw [C17_nondestructive_unchanged s .insert (by decide)]; exact h
+        | pgstat => rw [C17_nondestructive_unchanged s .pgstat (by decide)]; exact h
+        | other => rw [C17_nondestructive_unchanged s .other (by decide)]; exact h
+      (repeat' split) <;> first | exact h | exact key
+    | disconnect cid =>
+      simp only [SrvEv.apply, Server.receive]
+      (repeat' split) <;> exact h
+  | req r => rw [show (SrvEv.req r).apply s = (s.request r).1 from rfl, (request_frame s r).2.2.1]; exact h
+  | setPw pw => exact h
+  | backup b pq => rw [show (SrvEv.backup b pq).apply s = (backupDatabase s b pq).1 from rfl, (backup_frame s b pq).2.2.1]; exact h
+  | restore b pq pr => exact absurd trivial hne
+  | fileDelete => exact absurd trivial hne
+  | fileCorrupt => simp [SrvEv.apply, Server.fileCorrupt, h]
+  | fileRepair => simp [SrvEv.apply, Server.fileRepair, h]
+  | powerOn => rw [show SrvEv.powerOn.apply s = s.powerOn from rfl, (power_frame s).2.2.1]; exact h
+  | powerOff => rw [show SrvEv.powerOff.apply s = s.powerOff from rfl, (power_frame s).2.2.2.2.2]; exact h
+  | tick b t pq pr => exact absurd trivial hne
+
+/-- Operations that cannot produce an escaping event. -/
+def Op.keepsCompromised : Op → Bool
+  | .restore => false
+  | .tick => false
+  | .fileDelete => false
+  | .rawQuery _ _ .encrypt => false
+  | .hQuery _ .encrypt => false
+  | .nQuery _ .encrypt => false
+  | .ransom _ .encrypt => false
+  | _ => true
+
+theorem not_escape_connect {e : SrvEv} (h : IsConnect e) : ¬ IsEscape e := by
+  obtain ⟨j, pw, rfl⟩ := h; exact id
+
+theorem not_escape_disc {e : SrvEv} (h : IsDisc e) : ¬ IsEscape e := by
+  obtain ⟨j, cid, rfl⟩ := h; exact id
+
+theorem not_escape_sql {e : SrvEv} {q : Sql} (h : IsSql q e) (hq : q ≠ .encrypt) : ¬ IsEscape e := by
+  obtain ⟨j, cid, rfl⟩ := h
+  cases q <;> first | exact id | exact absurd rfl hq
+
+theorem keepsCompromised_no_escape (op : Op) (h : op.keepsCompromised = true) (e : SrvEv) (ha : OpAllows op e) :
+    ¬ IsEscape e := by
+  cases op with
+  | connect i => exact not_escape_connect ha
+  | nConnect i => exact not_escape_connect ha
+  | rawQuery i cid q => exact not_escape_sql ha (by intro hq; subst hq; simp [Op.keepsCompromised] at h)
+  | hQuery hd q => exact not_escape_sql ha (by intro hq; subst hq; simp [Op.keepsCompromised] at h)
+  | nQuery i q => exact not_escape_sql ha (by intro hq; subst hq; simp [Op.keepsCompromised] at h)
+  | rawDisconnect i cid => exact not_escape_disc ha
+  | hDisconnect hd => exact not_escape_disc ha
+  | nDisconnect i => exact not_escape_disc ha
+  | uninstall i => exact not_escape_disc ha
+  | execute i =>
+    rcases ha with ha | ha
+    · exact not_escape_connect ha
+    · exact not_escape_sql ha (by decide)
+  | ransom i q =>
+    rcases ha with ha | ha
+    · exact not_escape_connect ha
+    · exact not_escape_sql ha (by intro hq; subst hq; simp [Op.keepsCompromised] at h)
+  | svc r => simp only [OpAllows] at ha; subst ha; exact id
+  | setPw pw => simp only [OpAllows] at ha; subst ha; exact id
+  | backup => obtain ⟨b, pq, rfl⟩ := ha; exact id
+  | restore => simp [Op.keepsCompromised] at h
+  | fileDelete => simp [Op.keepsCompromised] at h
+  | fileCorrupt => simp only [OpAllows] at ha; subst ha; exact id
+  | fileRepair => simp only [OpAllows] at ha; subst ha; exact id
+  | power who on => obtain ⟨_, rfl⟩ := ha; cases on <;> exact id
+  | tick => simp [Op.keepsCompromised] at h
+  | install i => exact absurd ha id
+  | appRun i => exact absurd ha id
+  | appClose i => exact absurd ha id
+  | clientPw i pw => exact absurd ha id
+  | ftps b => exact absurd ha id
+  | block w on => exact absurd ha id
+
+/-- What the client application sees of an answer is what the server sent. -/
+theorem send_seen (st : State) (i : Nat) (p : Payload) (a : Nat × Option Nat) (h : (st.send i p).2.2 = some a) :
+    (st.srv.receive i p).2 = some a := by
+  unfold State.send at h
+  split at h
+  · simp at h
+  · dsimp only at h
+    split at h
+    · simp at h
+    · rename_i a' heq
+      dsimp only at h
+      split at h
+      · split at h
+        · simp only [Option.some.injEq] at h; rw [heq, h]
+        · simp at h
+      · simp at h
+
+theorem receive_select_compromised (s : Server) (h : s.file = some .compromised) (src : Nat) (cid : Option Nat)
+    (a : Nat × Option Nat) (ha : (s.receive src (.sql cid .select)).2 = some a) : a.1 ≠ 200 := by
+  have hsel := C17_select_fails_on_compromised s h
+  simp only [Server.receive] at ha
+  split at ha
+  · simp at ha
+  · split at ha
+    · split at ha
+      · simp only [Option.some.injEq] at ha; rw [← ha]; exact hsel.1
+      · simp only [Option.some.injEq] at ha; rw [← ha]; decide
+    · simp only [Option.some.injEq] at ha; rw [← ha]; decide
+
+/-- **Reads of compromised data fail until it is restored.**  Along any operation sequence that contains no restore,
+no tick (a tick may complete a fix, which restores), no ENCRYPT and no deletion of the file, the file stays
+COMPROMISED, and every SELECT — from any client, on any connection — is not answered 200. -/
+theorem C17_compromised_until_restored_run (st : State) (ops : List Op)
+    (hops : ∀ op ∈ ops, op.keepsCompromised = true) (h : st.srv.file = some .compromised) :
+    (run st ops).srv.file = some .compromised ∧
+    ∀ i cid, ((run st ops).rawQuery i cid .select).2.2 = false := by
+  have hfile := (run_reach st ops).invariant (I := fun s => s.file = some .compromised)
+    (fun s e ⟨op, hm, ha⟩ hs => apply_compromised_persists s e (keepsCompromised_no_escape op (hops op hm) e ha) hs) h
+  refine ⟨hfile, ?_⟩
+  intro i cid
+  generalize run st ops = st' at hfile
+  unfold State.rawQuery
+  dsimp only
+  cases hs : (st'.send i (.sql cid .select)).2.2 with
+  | none => rfl
+  | some a =>
+    have h1 := receive_select_compromised st'.srv hfile i cid a (send_seen st' i _ a hs)
+    obtain ⟨code, oid⟩ := a
+    split
+    · rename_i heq; simp only [Option.some.injEq, Prod.mk.injEq] at heq; exact absurd heq.1 h1
+    · rfl
+
+/-! ### unavailability along sequences -/
+
+/-- While the service cannot act, client traffic, backup and restore events leave the server exactly as it is. -/
+theorem apply_unavailable (s : Server) (e : SrvEv) (h : s.canAct = false)
+    (he : (∃ src p, e = .recv src p) ∨ (∃ b pq, e = .backup b pq) ∨ (∃ b pq pr, e = .restore b pq pr)) :
+    e.apply s = s := by
+  rcases he with ⟨src, p, rfl⟩ | ⟨b, pq, rfl⟩ | ⟨b, pq, pr, rfl⟩
+  · simp [SrvEv.apply, C17_unavailable_receive s h]
+  · simp [SrvEv.apply, (C17_unavailable_backup_restore s h b pq true).1]
+  · simp [SrvEv.apply, (C17_unavailable_backup_restore s h b pq pr).2]
+
+/-- Operations by which clients (and red applications) talk to the server, plus backup and restore. -/
+def Op.isTraffic : Op → Bool
+  | .connect _ | .rawQuery _ _ _ | .rawDisconnect _ _ | .hQuery _ _ | .hDisconnect _ | .nConnect _ | .nQuery _ _
+  | .nDisconnect _ | .execute _ | .uninstall _ | .ransom _ _ | .backup | .restore => true
+  | _ => false
+
+theorem traffic_events (op : Op) (h : op.isTraffic = true) (e : SrvEv) (ha : OpAllows op e) :
+    (∃ src p, e = .recv src p) ∨ (∃ b pq, e = .backup b pq) ∨ (∃ b pq pr, e = .restore b pq pr) := by
+  have hc : ∀ {e}, IsConnect e → ∃ src p, e = SrvEv.recv src p := fun ⟨j, pw, h⟩ => ⟨j, _, h⟩
+  have hq : ∀ {q e}, IsSql q e → ∃ src p, e = SrvEv.recv src p := fun ⟨j, cid, h⟩ => ⟨j, _, h⟩
+  have hd : ∀ {e}, IsDisc e → ∃ src p, e = SrvEv.recv src p := fun ⟨j, cid, h⟩ => ⟨j, _, h⟩
+  cases op with
+  | connect i => exact Or.inl (hc ha)
+  | nConnect i => exact Or.inl (hc ha)
+  | rawQuery i cid q => exact Or.inl (hq ha)
+  | hQuery hd' q => exact Or.inl (hq ha)
+  | nQuery i q => exact Or.inl (hq ha)
+  | rawDisconnect i cid => exact Or.inl (hd ha)
+  | hDisconnect hd' => exact Or.inl (hd ha)
+  | nDisconnect i => exact Or.inl (hd ha)
+  | uninstall i => exact Or.inl (hd ha)
+  | execute i =>
+    rcases ha with ha | ha
+    · exact Or.inl (hc ha)
+    · exact Or.inl (hq ha)
+  | ransom i q =>
+    rcases ha with ha | ha
+    · exact Or.inl (hc ha)
+    · exact Or.inl (hq ha)
+  | backup => exact Or.inr (Or.inl ha)
+  | restore => exact Or.inr (Or.inr ha)
+  | svc r => simp [Op.isTraffic] at h
+  | setPw pw => simp [Op.isTraffic] at h
+  | fileDelete => simp [Op.isTraffic] at h
+  | fileCorrupt => simp [Op.isTraffic] at h
+  | fileRepair => simp [Op.isTraffic] at h
+  | power who on => simp [Op.isTraffic] at h
+  | tick => simp [Op.isTraffic] at h
+  | install i => simp [Op.isTraffic] at h
+  | appRun i => simp [Op.isTraffic] at h
+  | appClose i => simp [Op.isTraffic] at h
+  | clientPw i pw => simp [Op.isTraffic] at h
+  | ftps b => simp [Op.isTraffic] at h
+  | block w on => simp [Op.isTraffic] at h
+
+/-- **Unavailability.**  While the service is not RUNNING or its node is not ON, no sequence of connects, queries,
+disconnects, executes, uninstalls, ransomware attacks, backups and restores — by any clients — changes the server. -/
+theorem C17_unavailable_run (st : State) (ops : List Op) (hops : ∀ op ∈ ops, op.isTraffic = true)
+    (h : st.srv.canAct = false) : (run st ops).srv = st.srv := by
+  have := (run_reach st ops).invariant (I := fun s => s = st.srv)
+    (fun s e ⟨op, hm, ha⟩ hs => by
+      subst hs
+      exact apply_unavailable _ e h (traffic_events op (hops op hm) e ha)) rfl
+  exact this
+
+/-- … and in such a state (or with the request path closed) a connect yields no handle and a query fails, leaving the
+*whole* state unchanged. -/
+theorem C17_unavailable_connect_query (st : State) (i : Nat) (h : st.srv.canAct = false ∨ st.reqOpen i = false) :
+    (st.getNewConnection i).2.2 = none ∧ (st.getNewConnection i).1 = st ∧
+    ∀ cid q, (st.rawQuery i cid q).2.2 = false ∧ (st.rawQuery i cid q).1 = st := by
+  have hs : ∀ p, st.send i p = (st, none, none) := by
+    intro p
+    rcases h with h | h
+    · exact C17_unavailable_send st i p h
+    · exact C17_blocked_send st i p h
+  refine ⟨?_, ?_, ?_⟩
+  · unfold State.getNewConnection
+    split
+    · rfl
+    · split
+      · rfl
+      · simp [hs]
+  · unfold State.getNewConnection
+    split
+    · rfl
+    · split
+      · rfl
+      · simp [hs]
+  · intro cid q
+    simp [State.rawQuery, hs]
+
+example : ({ srv := { op := .stopped }, clients := [{}] } : State).srv.canAct = false := by decide
+example : (run ({ srv := { op := .stopped }, clients := [{}] } : State) [.connect 0, .rawQuery 0 (some 0) .delete, .restore]).srv
+    = ({ op := .stopped } : Server) := by decide
 
 end Primaite.Database
